@@ -176,6 +176,24 @@ impl<'a, 'tcx> Cx<'a, 'tcx> {
                         if let Rvalue::Use(Operand::Constant(c), _) = rv {
                             inner = Some(sub.constant(c));
                         }
+                        // `&Enum::UnitVariant`
+                        if let Rvalue::Aggregate(kind, ops) = rv {
+                            if let AggregateKind::Adt(did, v, _, _, _) = &**kind {
+                                if ops.is_empty() {
+                                    let adt = tcx.adt_def(*did);
+                                    let var = adt.variant(*v);
+                                    inner = Some(J::Obj(vec![
+                                        ("k", J::s("const")),
+                                        ("ty", J::s(tcx.def_path_str(*did))),
+                                        ("val", J::n(v.as_usize())),
+                                        ("def", J::Null),
+                                        ("fn", J::Null),
+                                        ("promoted", J::Null),
+                                        ("text", J::s(format!("{}::{}", tcx.def_path_str(*did), var.name))),
+                                    ]));
+                                }
+                            }
+                        }
                     }
                 }
             }
